@@ -108,9 +108,34 @@ def run_history(case):
         for step in range(nsteps):
             probs = []
             k = rng.random()
-            if k < 0.35:
+            if k < 0.33:
                 ops = scen.mutate(fs, rng, rng.randint(1, 5), hostile=0.1)
                 hist.append(("fs", len(ops)))
+                continue
+            if k < 0.35:
+                # position holes: empty a disk, sync, drop it from the configuration; or add a new disk
+                if len(a.disks) >= 2 and rng.random() < 0.6:
+                    d = rng.choice(a.disks)
+                    if any(cp.startswith(a.ddir(d) + "/") for cp in a.cpaths()):
+                        continue
+                    fs.clear_disk(d)
+                    r = a.cmd("sync", "-E", variant=variant)
+                    hist.append(("empty-disk+sync -E", d, r.rc))
+                    if r.rc != 0:
+                        break
+                    a.drop_disk(d)
+                    r = a.cmd("status", variant=variant)
+                    hist.append(("drop-disk+status", d, r.rc))
+                    res["counters"]["disks_dropped"] = res["counters"].get("disks_dropped", 0) + 1
+                    if r.rc != 0:
+                        res["inconclusive"] = "status refused after dropping an emptied disk: %s" % r.err[-300:]
+                        break
+                else:
+                    d = a.add_disk()
+                    fs.entries[d] = {}
+                    A.populate(fs, rng, nfiles=rng.randint(1, 6), hostile=0.1, disks=[d], links=False, dirs=False)
+                    hist.append(("add-disk", d))
+                    res["counters"]["disks_added"] = res["counters"].get("disks_added", 0) + 1
                 continue
             args = []
             if iocache:
@@ -157,6 +182,8 @@ def run_history(case):
                 args += ["--test-force-scrub-even"]
             r = a.cmd(cmd, *args, variant=variant, shim=shim)
             hist.append((cmd, args, r.rc))
+            if cmd == "touch":
+                fs.adopt_touch()
             res["counters"]["commands"] = res["counters"].get("commands", 0) + 1
             res["counters"]["cmd_" + cmd] = res["counters"].get("cmd_" + cmd, 0) + 1
             where = "after step %d %s %s rc=%s" % (step, cmd, " ".join(args), r.rc)
@@ -253,14 +280,31 @@ def _resync_model(a, fs):
                     os.makedirs(p, exist_ok=True)
             except OSError:
                 pass
-        # remove leftovers such as *.unrecoverable
-        for root, dirs, files in os.walk(os.fsencode(a.ddir(d))):
+        # remove what the model does not have (files restored by fix, *.unrecoverable leftovers)
+        own = scen.content_copy_subs(a)[d]
+        base = os.fsencode(a.ddir(d))
+        for root, dirs, files in os.walk(base, topdown=False):
             for f in files:
-                if f.endswith(b".unrecoverable"):
-                    try:
-                        os.unlink(os.path.join(root, f))
-                    except OSError:
-                        pass
+                p = os.path.join(root, f)
+                rel = p[len(base):].lstrip(b"/")
+                if rel in fs.entries[d] or rel in own:
+                    continue
+                try:
+                    os.unlink(p)
+                except OSError:
+                    pass
+            for dn in dirs:
+                p = os.path.join(root, dn)
+                rel = p[len(base):].lstrip(b"/")
+                if rel in fs.entries[d]:
+                    continue
+                try:
+                    if os.path.islink(p):
+                        os.unlink(p)
+                    elif not os.listdir(p):
+                        os.rmdir(p)
+                except OSError:
+                    pass
 
 
 def main(tier, seed, replay, jobs, scale):
@@ -270,8 +314,8 @@ def main(tier, seed, replay, jobs, scale):
         rp = json.load(open(replay))
         cases = [tuple(rp["replay"]["case"])]
     else:
-        n = int((40 if tier == "quick" else 1000) * scale)
-        steps = 14 if tier == "quick" else 26
+        n = int((300 if tier == "quick" else 6000) * scale)
+        steps = 16 if tier == "quick" else 28
         cases = [(seed, i, steps, tier) for i in range(n)]
     par.absorb(run, par.run_cases(run_history, cases, jobs))
     run.assumptions += ["a process kill does not lose page-cache data; missing fsyncs are only visible to the ordering spec",
